@@ -119,6 +119,9 @@ def handle (stream : String) (args : List String) : String :=
         match cs with
         | [] => acc.reverse
         | t :: rest =>
+          -- `ps,<state>`: the transport tasks reported a peer state other than Closed. Not part of the model's state: the
+          -- model says NOTHING changes and `close` still forces Closed afterwards
+          if (fields t).head? = some "ps" then go pc seen rest (showPc .ok pc :: acc) else
           match parseCall seen t with
           | none => ("bad-call" :: acc).reverse
           | some c =>
